@@ -288,6 +288,34 @@ Definition chk_C01x' (c : chain_case) (o : op) (ok : bool) (prev cur : val) : li
   | _ => chk_C01x c o ok prev cur
   end.
 Definition mon_C01x := mon_steps chk_C01x'.
+(* C20, accepted operations under an injected fault: the only tolerated internal failure is the refund of a farm that is
+   being closed. Any other transaction ACCEPTED while a fault was pending must be fully consistent: what the pool manager
+   holds beyond its reserves moves only as C01 allows, reserves stay backed and the farm manager's custody holds - a
+   swap that commits although its fee transfer failed (reserves lowered, coins still there) shows up here. *)
+Fixpoint fault_codes (c : chain_case) (pending : bool) (ops : list cop) (steps : list val) (prev : val) : list Z :=
+  match ops, steps with
+  | COp o :: ro, st :: rs =>
+      let cur := vnth 1 st in
+      let ok := vgetB (vnth 0 st) in
+      match o with
+      | SetFault _ => fault_codes c true ro rs cur
+      | Tx s _ _ _ =>
+          ((if pending && ok && negb (String.eqb s PM) then
+              (if match chk_C01x c o ok prev cur with [] => true | _ => false end &&
+                  c01_snapshot_ok c cur && c05_snapshot_ok c cur then [] else [20])
+            else []) ++ fault_codes c false ro rs cur)%list
+      | _ => fault_codes c pending ro rs cur
+      end
+  | CQuery _ :: ro, _ :: rs => fault_codes c pending ro rs prev
+  | _, _ => []
+  end.
+Definition mon_C20f (c : chain_case) (obs : val) : list Z :=
+  (mon_steps chk_C20 c obs ++
+   match vlist obs with
+   | _ :: s0 :: steps => nodup Z.eq_dec (fault_codes c false (cc_ops c) steps s0)
+   | _ => []
+   end)%list.
+
 Definition mon_C01f (c : chain_case) (obs : val) : list Z := (mon_C01 c obs ++ mon_C04 c obs ++ mon_C01x c obs)%list.
 Definition mon_all (c : chain_case) (obs : val) : list Z :=
   (mon_C01 c obs ++ mon_C05 c obs ++ mon_C16 c obs ++ mon_C02 c obs ++ mon_C03 c obs ++ mon_C04 c obs ++ mon_C06 c obs ++
